@@ -102,6 +102,7 @@ Scen make_scenario(uint64_t seed, long long scen, bool parallel, bool thorough){
         if (s.family == fam_fourier && s.type == type_qptotal) s.type = type_iptotal;
         for(int j=0; j<s.dims; j++) s.aw.push_back(rng.range(1, 3));
         s.output = rng.coin(0.5) ? -1 : rng.range(0, s.outs - 1);
+        if (s.family == fam_global && s.output < 0) s.output = 0; // Global grids need a specific output for the estimated anisotropy (documented; -1 is rejected with invalid_argument)
     }
     // initial grid: at least jobs * batch points ("sufficiently large number of initial points, enough candidates to load all threads")
     s.depth = 1;
@@ -326,7 +327,13 @@ void mon_c17(CaseCtx &c, Rng &){
     //     charged to clause (b), not twice to the budget).  The class of the key is the input class, not the fault class: an overshoot
     //     depends on how much budget was left at the restart and on the kind of grid, not on where the previous process died.
     {
-        if (g_hooks.recovered_points > (long) s.budget)
+        // chains: the process before this one was itself a restart; when IT overshot (recorded finding F-ckpt3) its checkpoint already holds more
+        // points than the budget and this process inherits the overshoot - reported under its own class, tied to chains
+        bool inherited = (mode == "restart" && fclass.compare(0, 6, "chain-") == 0 && g_hooks.recovered_points > (long) s.budget);
+        if (inherited)
+            c.viol(std::string("budget-exceeded:inherited-from-the-checkpoint-of-an-earlier-restart:") + (s.parallel ? "parallel:" : "sequential:") + fam_name(s.family),
+                   J().i("budget", s.budget).i("recovered", g_hooks.recovered_points).i("source", g_hooks.recovered_source).str("fault", fclass).obj());
+        else if (g_hooks.recovered_points > (long) s.budget)
             c.viol("corrupt-grid:recovered-more-points-than-the-budget@" + fclass, J().i("budget", s.budget).i("recovered", g_hooks.recovered_points).i("source", g_hooks.recovered_source).obj());
         std::set<PKey> all = (mode == "restart" && have_saved) ? saved : std::set<PKey>();
         long nsaved = (long) all.size();
@@ -354,10 +361,11 @@ void mon_c17(CaseCtx &c, Rng &){
                 if (parked > 0 && over > 0 && over <= parked) cls = std::string("sequential:") + fam_name(s.family) + ":restart-with-parked-samples-not-counted";
             }
         }
-        if (total > (long) s.budget)
+        if (inherited){ /* reported above */ }
+        else if (total > (long) s.budget)
             c.viol("budget-exceeded:" + cls, J().i("budget", s.budget).i("distinct_saved_or_evaluated", total).i("launched_here", launched.load()).i("saved_before", nsaved)
                    .i("recovered_points_hook", g_hooks.recovered_points).i("jobs", s.jobs).i("batch", s.batch).str("fault", fclass).obj());
-        if (grid.getNumLoaded() > s.budget)
+        if (!inherited && grid.getNumLoaded() > s.budget)
             c.viol("budget-exceeded:final-grid:" + cls, J().i("budget", s.budget).i("loaded", grid.getNumLoaded()).str("fault", fclass).obj());
     }
     // (e) recovered event
